@@ -36,6 +36,55 @@ OPTIONAL = {
 }
 
 
+# optional parameters that are ALWAYS passed: DFA.successor(s) without max_length need not terminate (a loop on the
+# smallest symbol through coaccessible non-final states has no lexicographically-next word: a, aa, aaa, … is
+# descended for ever) — misc_common's table bounds them for the same reason
+ALWAYS = ("max_length",)
+
+
+CALL_LIMIT_S = 5.0
+
+
+class _Limit(BaseException):
+    """Raised by the watchdog inside the call (a BaseException: library code that catches Exception lets it through)."""
+
+
+class NoAnswerWithinTimeLimit(Exception):
+    """A generically called method did not return within CALL_LIMIT_S (the inputs are tiny)."""
+
+
+def limited(fn: Callable, seconds: float = CALL_LIMIT_S) -> Callable:
+    """fn with a watchdog (main thread only; an enclosing tighter watchdog stays in charge)."""
+    import functools
+    import signal
+    import threading
+    import time
+
+    @functools.wraps(fn)
+    def wrapper(*args):
+        if threading.current_thread() is not threading.main_thread():
+            return fn(*args)
+        outer = signal.getitimer(signal.ITIMER_REAL)[0]
+        if 0 < outer <= seconds:
+            return fn(*args)
+
+        def on_alarm(signum, frame):
+            raise _Limit()
+        old = signal.signal(signal.SIGALRM, on_alarm)
+        signal.setitimer(signal.ITIMER_REAL, seconds)
+        t0 = time.time()
+        try:
+            return fn(*args)
+        except _Limit:
+            raise NoAnswerWithinTimeLimit(f"no answer within {seconds} s") from None
+        finally:
+            signal.setitimer(signal.ITIMER_REAL, 0)
+            signal.signal(signal.SIGALRM, old)
+            if outer:
+                signal.setitimer(signal.ITIMER_REAL, max(0.05, outer - (time.time() - t0)))
+    return wrapper
+
+
 def discovered(klass) -> List[Tuple[str, inspect.Signature]]:
     """(name, signature of the bound-less function minus self) of every public instance method of `klass`."""
     out = []
@@ -113,14 +162,14 @@ def make_op(cls: str, name: str, sig: inspect.Signature) -> Optional[Tuple[str, 
             else:
                 args.append(v)
         for p in pc["optional"]:
-            if p.name in (a.get("fill") or ()):
+            if p.name in ALWAYS or p.name in (a.get("fill") or ()):
                 kwargs[p.name] = OPTIONAL[p.name](a)
         return _consume(getattr(x, name)(*args, **kwargs))
 
     opname = f"{cls}.{name}"
     if pc["binary"]:
-        return (opname, 2, lambda x, y, a: call(x, y, a))
-    return (opname, 1, lambda x, a: call(x, None, a))
+        return (opname, 2, limited(lambda x, y, a: call(x, y, a)))
+    return (opname, 1, limited(lambda x, a: call(x, None, a)))
 
 
 def discovered_ops(cls: str, only_new: bool = False):
